@@ -26,6 +26,14 @@ CHECKS = {
     technique="exhaustive enumeration of witness spaces (exact real-field engine) over all operand vectors of a bounded domain, compared with the run-time check and the documented relation",
     text="For every assertion/declaration kind (six comparisons x 4 operand-kind combinations, zero/nonzero/positive, explicit widths 1..n+1 for assert_positive and to_bits, range, boolean declarations through four constructors, PackIntMod.unpack) and every operand vector of D(n): satisfiable (all witness choices enumerated; on the system of an unchecked run and on the system of an accepted run re-pinned to the vector) must equal accepted-by-the-checked-call, accepted implies the documented relation, and relation-within-width implies accepted.",
     note="Real fields only (small fields wrap around the value domain and are not used for verdicts). Relies on pv.witness.exact, which C02 cross-validates against brute force on every run."),
+ "C06": dict(cat="model_checking", design="3/C06, 2.1",
+    technique="stateless exhaustive enumeration of programs x all input vectors x modes on the real code, canonical-trace comparison; recorder validated by replaying the same executions against pysnark.snarkjsbackend",
+    text="Every depth-1 program (incl. public-input operands, assertions, selection) and depth-2 composition is run on ALL input vectors of D(n), checked and with ignore_errors (valid and invalid inputs), under guard 0 and guard 1; per program, public literals and mode class all completed runs must have one canonical trace (variable kinds in order, constraints in order with coefficients mod p, result wire expressions). The same explorer is also run in a fresh process against the unmodified snarkjs backend: 35k executions must give traces identical to the recorder's.",
+    note="Public integer literals are part of the program text (they are folded into coefficients), public/ private *inputs* are varied. Block constructs, arrays, packing and hashes have their trace-independence oracle in C09, C15, C16, C20."),
+ "C07": dict(cat="model_checking", design="3/C07, 2.2-2.3",
+    technique="exhaustive enumeration of guarded bodies x operand vectors (valid and invalid) x 12 guard realisations on the real code, plus witness-space enumeration of the enclosing selection",
+    text="Every depth-1 program (and depth-2 composition) as a guarded body on every operand vector of D(n), under integer- and boolean-typed guards 0/1, two nested guards (4 combinations) and the lazily evaluated then-/else-branch of if_then_else: effective guard 0 => no value-caused exception, whole system satisfied by the recorded witness, value==wire, selection returns the other branch and (all prover choices enumerated) is uniquely that; effective guard 1 => same value or same exception class as unguarded, and the same set of provable results with and without ignore_errors.",
+    note="A raise under a false guard is skipped only if it is value-independent (the group never completes unguarded and every vector raises the same class under that guard: invalid public literal or an operation the operand types do not offer). Witness-space part at bitlength 2 (quick) / 2-3 (thorough)."),
 }
 
 NOT_YET = {}
